@@ -967,3 +967,39 @@ def signed_difference_compares(run, fns, rule='R11', instance='unsigned-compare-
                           % (q.render(fn, inner)[:60], fn.cty(conv), ' and '.join('%s <= %s' % (q.render(fn, s_['rhs'])[:30], q.render(fn, s_['lhs'])[:30]) for s_ in subs)),
                           'a dominating guard orders the operands of the subtraction')
     return n
+
+
+def header_keys_lowercase(run, fns, rule='R3', instance='header-key-case'):
+    """Writer/reader agreement on the header map: parse_request stores every header NAME lower-cased, so every literal a
+    reader uses to address the map (operator[], find, count, at, erase, or a comparison with an element's .first) must
+    be lower-case too - a "Host" look-up can never match.  Returns the number of literal keys examined."""
+    n = 0
+
+    def lits(e):
+        return [x for x in walk(e) if x['k'] in ('str', 'strlit', 'string') or (x['k'] == 'lit' and isinstance(x.get('v'), str))]
+    for fn in fns:
+        for c in fn.all_nodes():
+            if c['k'] != 'call':
+                continue
+            keys = []
+            nm = (c.get('callee') or '').split('::')[-1]
+            if c.get('obj') is not None and q.render(fn, c['obj']).endswith('headers') and nm in ('find', 'count', 'at', 'erase', 'operator[]', 'contains') and c.get('args'):
+                keys = lits(c['args'][0])
+            elif c.get('opc') == '[]' and c.get('args') and q.render(fn, c['args'][0]).endswith('headers'):
+                keys = lits(c['args'][1])
+            elif c.get('opc') in ('==', '!=') and len(c.get('args') or []) == 2:
+                a, b = c['args']
+                for x, y in ((a, b), (b, a)):
+                    xs = q.strip_casts(x)
+                    if is_node(xs) and xs['k'] == 'member' and xs.get('name') == 'first':
+                        base_ty = fn.cty(xs['base']) if is_node(xs.get('base')) and 't' in xs['base'] else ''
+                        if 'basic_string' in base_ty and base_ty.count('basic_string') >= 2:
+                            keys = lits(y)
+            for k in keys:
+                v = k.get('v') if isinstance(k.get('v'), str) else q.render(fn, k).strip("'\"")
+                n += 1
+                run.touch(fn)
+                run.check(v == v.lower(), rule, instance, '%s: "%s"' % (q.top_function(run.fx, fn).norm, v), fn.loc(c),
+                          'the header map is addressed with the key "%s", but parse_request stores header names lower-cased: the look-up never matches (a request that does carry the header is treated as lacking it)' % v,
+                          'lower-case key, as stored by parse_request')
+    return n
